@@ -16,6 +16,7 @@ type DSLOpts struct {
 	Conditions  bool
 	MultiLine   bool // allow multi-line condition expressions
 	RestrNoThis bool // json profile: restrictions on relations without `this`
+	Scale       bool // one model in eight is scaled up along one dimension (InflateDSL): operands, nesting depth, relations, types, restrictions, conditions, parameters, expression length, name length
 }
 
 var ParamScalars = []string{"bool", "string", "int", "uint", "double", "duration", "timestamp", "ipaddress"}
@@ -95,6 +96,9 @@ func DSLModel(t *rapid.T, o DSLOpts) *Model {
 			td.Rels = append(td.Rels, r)
 		}
 		m.Types = append(m.Types, td)
+	}
+	if o.Scale && rapid.IntRange(0, 7).Draw(t, "scale") == 0 {
+		m.Scaled = InflateDSL(t, m, o.JSONOnly)
 	}
 	return m
 }
